@@ -24,6 +24,12 @@ ASSUMPTIONS = ["C03 theorems assume JwsLaws: json dumps/loads round trip on head
                "JSON serialization of an unencoded payload that is not valid UTF-8 is inadmissible (RFC 7797 section 5.1)"]
 
 
+URL_HEADERS = [{"jku": "https://keys.example.com:8443/jwks.json"}, {"x5u": "http://127.0.0.1:5000/.well-known/cert.pem"}, {"jku": "https://pki.example.com?cert=signer-1"},
+               {"x5u": "https://user:pw@certs.example.com/chain.pem"}, {"jku": "https://[2001:db8::1]/jwks.json"}, {"jku": "https://keys.example.com/jwks.json#frag"},
+               {"x5u": "https://example.com/a%20b/c.pem?x=1&y=2"}, {"jku": "https://example.com"}, {"jku": "http://localhost:8080", "x5u": "https://example.com:443/"},
+               {"jku": "https://xn--bcher-kva.example/jwks"}, {"x5u": "https://example.com/~user/cert.pem"}, {"jku": "https://example.com/path;param=1/jwks.json"}]
+
+
 def run(ctx):
     from joserfc import jws, rfc7797, _keys
     from joserfc.jwk import KeySet
@@ -34,7 +40,7 @@ def run(ctx):
     _batch = []
     FORMS = ["key", "set-kid", "set-nokid", "callable", "key"]
     for round_no in range(rounds):
-        for alg in J.ALL_ALGS:
+        for alg_i, alg in enumerate(J.ALL_ALGS):
             for kn_i, kn in enumerate(J.ALG_KEYS[alg] if ctx.tier == "thorough" else J.ALG_KEYS[alg][:2]):
                 for kind_i, kind in enumerate(S.KINDS):
                     payload = rng.choice(J.PAYLOADS)
@@ -44,8 +50,17 @@ def run(ctx):
                         except UnicodeDecodeError:
                             payload = b"text payload"
                     prot, unprot = S.headers_for(rng, alg, kind)
+                    if round_no == 0 and kn_i == 0:
+                        # always present: `jku` / `x5u` URLs of every admissible shape (RFC 3986: port, userinfo, IP literals,
+                        # query and fragment with or without a path, percent-escapes, upper-case scheme letters are not required)
+                        uh = URL_HEADERS[(alg_i * len(S.KINDS) + kind_i) % len(URL_HEADERS)]
+                        if not (unprot and set(uh) & set(unprot)):
+                            prot = dict(prot, **uh)
                     # first round: every (algorithm, key form) pair occurs - the form rotates with the serialization; later rounds: random
-                    keyform = FORMS[(kind_i + kn_i) % 5] if round_no == 0 else rng.choice(["key", "key", "set-kid", "set-nokid", "callable"])
+                    # (the rotation also moves with the algorithm, so that every serialization meets every key form)
+                    keyform = FORMS[(kind_i + kn_i + alg_i) % 5] if round_no == 0 else rng.choice(["key", "key", "set-kid", "set-nokid", "callable"])
+                    if round_no == 0 and keyform == "set-nokid" and "alg" in prot:
+                        unprot = None          # always present: a member with NO unprotected header whose kid has to be recorded by the library
                     sk = K.key(kn, private=True)
                     pk = K.key(kn, private=False)
                     other = K.key("oct16" if kn != "oct16" else "oct32", private=True, kid="other")
